@@ -247,6 +247,26 @@ pub fn ref_allows_ff(label: &[char]) -> Result<(), Vec<RErr>> {
 // ---------------------------------------------------------------------------------------------
 // Profile steps
 
+thread_local! {
+    /// 0 = ICU4X (reference), 1 = unicode-normalization plain iterators (skew guard only)
+    pub static NORM_IMPL: std::cell::Cell<u8> = std::cell::Cell::new(0);
+}
+pub fn nfc(s: &str) -> String {
+    use unicode_normalization::UnicodeNormalization;
+    if NORM_IMPL.with(|n| n.get()) == 0 { ucd::nfc_icu(s) } else { s.nfc().collect() }
+}
+pub fn nfkc(s: &str) -> String {
+    use unicode_normalization::UnicodeNormalization;
+    if NORM_IMPL.with(|n| n.get()) == 0 { ucd::nfkc_icu(s) } else { s.nfkc().collect() }
+}
+/// evaluate `f` with the alternative normaliser
+pub fn with_alt_norm<T>(f: impl FnOnce() -> T) -> T {
+    NORM_IMPL.with(|n| n.set(1));
+    let r = f();
+    NORM_IMPL.with(|n| n.set(0));
+    r
+}
+
 pub fn ref_width(s: &str) -> String {
     let d = db();
     s.chars().map(|c| d.width16(c)).collect()
@@ -415,7 +435,7 @@ pub fn model_nick_round(s: &str, lower: bool, tr: &mut Trace) -> Alts {
     tr.space_changed |= sp != *x;
     let lc = if lower { ref_lower(&sp) } else { sp.clone() };
     tr.case_changed |= lc != sp;
-    let n = ucd::nfkc_icu(&lc);
+    let n = nfkc(&lc);
     tr.norm_changed |= n != lc;
     if n.is_empty() {
         return vec![Err(RErr::Invalid)];
@@ -444,7 +464,7 @@ pub fn model_enforce(p: Prof, s: &str, tr: &mut Trace) -> Alts {
             let Some(w) = single_ok(&a) else { return a };
             let c = if p == Prof::UserMapped { ref_lower(w) } else { w.clone() };
             tr.case_changed = c != *w;
-            let n = ucd::nfc_icu(&c);
+            let n = nfc(&c);
             tr.norm_changed = n != c;
             if n.is_empty() {
                 return vec![Err(RErr::Invalid)];
@@ -460,7 +480,7 @@ pub fn model_enforce(p: Prof, s: &str, tr: &mut Trace) -> Alts {
             let Some(x) = single_ok(&a) else { return a };
             let sp = ref_space_opaque(x);
             tr.space_changed = sp != *x;
-            let n = ucd::nfc_icu(&sp);
+            let n = nfc(&sp);
             tr.norm_changed = n != sp;
             if n.is_empty() {
                 return vec![Err(RErr::Invalid)];
